@@ -73,6 +73,10 @@ class _Lock:
 def build_sg(targets=None):
     """(Re)build /repo's current working tree, out of tree, with -DSIMGRID_VERIF. Serialised by a file lock."""
     t0 = time.time()
+    if os.path.exists(os.path.join(SG, ".verif_mutclone")):
+        # scratch clone made by tools/mutclone.py: objects were rebuilt by hand from the patched worktree; running ninja
+        # here would rebuild them from /repo (ninja's deps log sees outputs newer than recorded) and undo the experiment
+        return 0.0
     with _Lock("sg"):
         if not os.path.exists(os.path.join(SG, "build.ninja")):
             os.makedirs(SG, exist_ok=True)
